@@ -334,13 +334,34 @@ func c09Validator(c *fw.Case) {
 			c.Count("time-validator-calls", 1)
 			c.Evals(1)
 			c.Sig("tv", typ, delta, fu[0] != 0, fu[1] != 0)
+			batchFirst := r.Bool()
+			if batchFirst {
+				// the same bytes looked at as an anchored operation first (batch mode: no request-time checks, the validator is not asked)
+				st.Parser.ParseOperation("did:sidetree", s.Built.Request, true)
+				st.Parser.GetRevealValue(s.Built.Request)
+				st.Parser.GetCommitment(s.Built.Request)
+				c.Count("time-validator-calls-after-batch-mode-lookups", 1)
+				if len(rv.calls) != 0 {
+					c.Failf("time-validator-consulted-in-batch-mode", map[string]interface{}{"request": string(s.Built.Request), "validator_calls": rv.calls}, "the request-time validator was consulted %d times while the request was parsed in batch mode", len(rv.calls))
+					continue
+				}
+			}
 			_, err := st.Parser.Parse("did:sidetree", s.Built.Request)
 			want := [2]int64{fu[0], oracle.EffectiveUntil(fu[0], fu[1], delta)}
 			w := map[string]interface{}{"request": string(s.Built.Request), "type": typeName(typ), "from": fu[0], "until": fu[1], "delta": delta, "MaxDeltaSize": proto.MaxDeltaSize,
-				"validator_calls": rv.calls, "expected_call": want, "err": fmt.Sprint(err)}
+				"validator_calls": rv.calls, "expected_call": want, "err": fmt.Sprint(err), "parsed_in_batch_mode_first": batchFirst}
 			if len(rv.calls) != 1 || rv.calls[0] != want {
 				c.Failf("time-validator-arguments", w, "time validator received %v, expected one call with %v", rv.calls, want)
 				continue
+			}
+			// a validator compares with the time of day: it is asked again whenever the same request arrives again
+			if rv.err == nil {
+				st.Parser.Parse("did:sidetree", s.Built.Request)
+				if len(rv.calls) != 2 || rv.calls[1] != want {
+					w["validator_calls"] = rv.calls
+					c.Failf("time-validator-arguments", w, "time validator received %v over two request-time parses of one request, expected two calls with %v", rv.calls, want)
+					continue
+				}
 			}
 			// the same request with a validator handed over by value (zero value / non-zero value of a struct type)
 			for _, vv := range []valueValidator{{}, {serverTime: 5}} {
